@@ -96,6 +96,7 @@ type Contracts struct {
 	Chains     map[string]string // pkg.Type -> name of the acyclic parent-link field
 	Uniques    []UniqueDecl      // fields holding an object owned by exactly one struct (checked by a writer scan)
 	Unreach    []UnreachDecl     // call-graph frame obligations
+	Trans      []TransDecl       // state-machine tables checked against a documented relation
 }
 
 // UnreachDecl: none of the To functions is reachable from any From function in the call graph
@@ -124,7 +125,7 @@ type Lemma struct {
 var keywords = map[string]bool{
 	"func": true, "spec": true, "requires": true, "ensures": true, "assigns": true, "loop": true,
 	"props": true, "pure": true, "trusted": true, "invariant": true, "global": true, "lemma": true,
-	"at": true, "mode": true, "use": true, "chain": true, "unique": true, "unreachable": true, "holds": true, "callersof": true, "sweep": true, "hyp": true, "concl": true, "package": true, "rec": true,
+	"at": true, "mode": true, "use": true, "chain": true, "unique": true, "unreachable": true, "holds": true, "callersof": true, "transitions": true, "sweep": true, "hyp": true, "concl": true, "package": true, "rec": true,
 }
 
 var funcHdr = regexp.MustCompile(`^func\s*(?:\(\s*(?:\w+\s+)?\*?\s*(\w+)\s*\))?\s*([\w$]+?(?:\$calls\([\w.$]+\))?)\s*(\(.*)$`)
@@ -295,6 +296,23 @@ func (cs *Contracts) parseFile(path string) error {
 			}
 			cs.Chains[pkg+"."+tf[0]] = tf[1]
 			cs.Assumed = append(cs.Assumed, "acyclic parent chain "+pkg+"."+rest+" (the link is only written on freshly constructed objects)")
+			cur, curInv, curLemma = nil, nil, nil
+		case "transitions":
+			fs := strings.Fields(rest)
+			td := TransDecl{Pkg: pkg, Func: fs[0], Allowed: map[string]bool{}, Text: rest}
+			mode := ""
+			for _, f := range fs[1:] {
+				if f == "props" || f == ":" {
+					mode = f
+					continue
+				}
+				if mode == "props" {
+					td.Props = append(td.Props, f)
+				} else if mode == ":" {
+					td.Allowed[f] = true
+				}
+			}
+			cs.Trans = append(cs.Trans, td)
 			cur, curInv, curLemma = nil, nil, nil
 		case "callersof":
 			// callersof <callee> props C01 : allowed caller keys   (every static call site of callee is in one of them)
